@@ -49,6 +49,73 @@ def program(kind, place, cfg, tkind="opaque"):
             "    impl Uuu {\n        pub fn u_one(&self) -> u8 { 1 }\n    }\n}\n" % (slf, slf, slf))
 
 
+# what the attributed method m_one looks like: a plain method, or a SPECIAL one whose presence changes how the type is rendered
+# (comparison -> operators / Comparable, iterator -> next(), stringifier -> toString), or one whose signature half of the backends
+# cannot lower at all
+SPECIAL_M1 = {
+    "comparison": "        #[diplomat::attr(auto, comparison)]\n        pub fn m_one(&self, o: &Tee) -> core::cmp::Ordering { todo!() }\n",
+    "iterator": "        #[diplomat::attr(auto, iterator)]\n        pub fn m_one(&mut self) -> Option<u8> { None }\n",
+    "stringifier": "        #[diplomat::attr(auto, stringifier)]\n        pub fn m_one(&self, w: &mut DiplomatWrite) {}\n",
+    "static_slice": "        pub fn m_one(&self, x: &'static [u8]) -> u8 { 1 }\n",
+}
+
+
+def program_m1(variant, cfg, erased=False):
+    """opaque Tee whose first method is `variant`; disabled under cfg (method place), or not written at all (erased)"""
+    attr = ("        #[diplomat::attr(%s, disable)]\n" % cfg) if cfg is not None else ""
+    m1 = "" if erased else attr + SPECIAL_M1[variant]
+    return ("#[diplomat::bridge]\nmod ffi {\n    use diplomat_runtime::DiplomatWrite;\n" + TDECL["opaque"] +
+            "    impl Tee {\n" + m1 + "        pub fn m_two(&self) -> u8 { 2 }\n    }\n"
+            "    impl Tee {\n        pub fn m_three(&self) -> u8 { 3 }\n    }\n"
+            "    #[diplomat::opaque]\n    pub struct Uuu(u8);\n    impl Uuu {\n        pub fn u_one(&self) -> u8 { 1 }\n    }\n}\n")
+
+
+def no_trace(rep, tier, cases):
+    """Remaining(pl, holds) of Attrs.tla: on a backend where the condition holds, a disabled method leaves no trace -- the output is
+    byte-identical to that of the program in which the method was never written; where it does not hold, identical to the
+    attribute-free program.  The method is a special method or has a signature the backend may be unable to lower."""
+    wd = rep.wd
+    rng = random.Random(lib.seed() + 13)
+    by_sig = {}
+    for c in cases:
+        by_sig.setdefault(tuple(sorted(b for b, v in c["sat"].items() if v)), []).append(c)
+    sigs = sorted(by_sig)
+    rng.shuffle(sigs)
+    n = 0
+    for variant in SPECIAL_M1:
+        erased = gen_all(wd, "erased", program_m1(variant, None, erased=True))
+        plain = gen_all(wd, "plain", program_m1(variant, None))
+        forms = [{"txt": "*", "sat": {b: True for b in lib.BACKENDS}}] + \
+                [{"txt": ftext(c["form"]), "sat": c["sat"]} for c in (rng.choice(by_sig[sg]) for sg in sigs[:(2 if tier == "quick" else 10)])]
+        for f in forms:
+            got = gen_all(wd, "dis", program_m1(variant, f["txt"]))
+            n += 1
+            for b in lib.BACKENDS:
+                exp = erased[b] if f["sat"][b] else plain[b]
+                exp_tree = exp["tree"]
+                if b == "demo_gen" and exp_tree is not None:
+                    jsexp = (erased[b] if f["sat"]["js"] else plain[b])["tree"] or {}
+                    exp_tree = {k: v for k, v in exp_tree.items() if not k.startswith("js/")}
+                    exp_tree.update({k: v for k, v in jsexp.items() if k.startswith("js/")})
+                    if (erased[b] if f["sat"]["js"] else plain[b])["rc"] != 0:
+                        continue       # the embedded js run fails on the undisabled signature: nothing to compare with
+                if exp["rc"] != 0 and not f["sat"][b]:
+                    # the backend cannot lower the method and the attribute does not disable it there: it fails with and without
+                    if got[b]["rc"] == 0:
+                        rep.violation({"leg": "no-trace", "variant": variant, "backend": b, "what": "undisabled unsupported method accepted"}, {"formula": f["txt"]})
+                    continue
+                if got[b]["rc"] != exp["rc"] or got[b]["tree"] != exp_tree:
+                    diff = [k for k in set(got[b]["tree"] or {}) | set(exp_tree or {}) if (got[b]["tree"] or {}).get(k) != (exp_tree or {}).get(k)]
+                    rep.violation({"leg": "no-trace", "variant": variant, "backend": b, "holds": f["sat"][b],
+                                   "what": "a disabled method leaves a trace" if f["sat"][b] else "output differs from the attribute-free program"},
+                                  {"formula": f["txt"], "differing_files": sorted(diff)[:10], "stderr": got[b]["stderr"],
+                                   "program": program_m1(variant, f["txt"])})
+            rep.nontriv("no-trace:%s:%s" % (variant, f["txt"]))
+    rep.evaluations += n * len(lib.BACKENDS)
+    rep.traces += n
+    rep.extra["no_trace_runs"] = n
+
+
 def allsyms(tkind):
     return {"Tee_m_one", "Tee_m_two", "Tee_m_three", "Uuu_u_one", "Uuu_destroy"} | ({"Tee_destroy"} if tkind == "opaque" else set())
 
@@ -252,5 +319,6 @@ def run(rep, tier):
     rep.extra["attr_path_undecided"] = {b: a["undecided"] for b, a in app.items() if a["undecided"]}
     cases = truth_table(rep, tier, gen)
     placement(rep, tier, cases)
+    no_trace(rep, tier, cases)
     exports(rep)
     rep.exhaustive = False
